@@ -22,6 +22,7 @@ def prop(pid, **kw):
 
 prop("C13",
      level="proof",
+     frames=True,
      level_text="Proof, for all tag names and all neighbour tokens, that is_optional_start/is_optional_end answer True only for "
                 "the 18 listed elements and only where the standard's optional-tag rule (spec/optional_tags.py) allows it, and "
                 "that Filter.__iter__/slider only ever drop tokens (step-wise loop contracts: every other token is yielded, the "
@@ -50,6 +51,7 @@ prop("C16",
 
 prop("C17",
      level="proof",
+     frames=True,
      level_text="Proof of the whitespace filter's loop body for an arbitrary token and an arbitrary nesting counter: the token is "
                 "emitted exactly once; non-text tokens and all keys but `data` are untouched; outside preserve elements "
                 "SpaceCharacters -> ' ' and Characters -> re.sub('[\\t\\n\\f \\r]+',' ',.) (SPACES_REGEX proved language-equal to "
@@ -181,6 +183,7 @@ prop("C19",
 
 prop("C18",
      level="proof",
+     frames=True,
      level_text="Proof that the sort key _attr_key is total and is the pair (namespace or '', local name) of strings for every "
                 "attribute with namespace None or a string (so comparisons never mix None and str). The filter's loop body is "
                 "explored symbolically for every token kind and every attribute map with AT MOST THREE attributes (any "
@@ -212,6 +215,7 @@ prop("C15",
 
 prop("C09",
      level="proof",
+     frames=True,
      level_text="Proofs for ARBITRARY allow-lists (sets known only through membership): sanitize_token lets a tag token through as "
                 "a tag only if (namespace, name) is on the element allow-list (None falls back to the HTML namespace), drops "
                 "comments, turns every other tag into a Characters token without a name, leaves other tokens untouched; "
